@@ -16,7 +16,9 @@ from functools import cmp_to_key
 
 from ufl.argument import Argument
 from ufl.coefficient import Coefficient
+from ufl.constant import Constant
 from ufl.core.multiindex import FixedIndex, MultiIndex
+from ufl.geometry import GeometricQuantity
 from ufl.variable import Label
 
 
@@ -96,12 +98,39 @@ def _cmp_terminal_by_repr(a, b):
     return -1 if x < y else (0 if x == y else 1)
 
 
+def _cmp_constant(a, b):
+    """Cmp constant."""
+    # Compare counts as numbers like for Coefficients (as strings in
+    # the repr, 10 sorts before 9), then use the remaining data
+    x, y = a._count, b._count
+    if x < y:
+        return -1
+    elif x > y:
+        return 1
+    else:
+        return _cmp_terminal_by_repr(a, b)
+
+
+def _cmp_geometric_quantity(a, b):
+    """Cmp geometric quantity."""
+    # Objects of the same type differ only in the domain: compare the
+    # domain ids as numbers (as strings in the repr, 10 sorts before 9)
+    x, y = a._domain.ufl_id(), b._domain.ufl_id()
+    if x < y:
+        return -1
+    elif x > y:
+        return 1
+    else:
+        return _cmp_terminal_by_repr(a, b)
+
+
 # Hack up a MultiFunction-like type dispatch for terminal comparisons
 _terminal_cmps = {}
 _terminal_cmps[MultiIndex._ufl_typecode_] = _cmp_multi_index
 _terminal_cmps[Argument._ufl_typecode_] = _cmp_argument
 _terminal_cmps[Coefficient._ufl_typecode_] = _cmp_coefficient
 _terminal_cmps[Label._ufl_typecode_] = _cmp_label
+_terminal_cmps[Constant._ufl_typecode_] = _cmp_constant
 
 
 def cmp_expr(a, b):
@@ -125,6 +154,8 @@ def cmp_expr(a, b):
         if a._ufl_is_terminal_:
             if x in _terminal_cmps:
                 c = _terminal_cmps[x](a, b)
+            elif isinstance(a, GeometricQuantity):
+                c = _cmp_geometric_quantity(a, b)
             else:
                 c = _cmp_terminal_by_repr(a, b)
 
